@@ -187,6 +187,59 @@ theorem C07_text_patterns_mem (ps : List Str) (dup : Bool) (cfg : PatCfg)
     · rintro ⟨p', hp, rfl, rfl⟩; exact ⟨hp, rfl⟩
     · rintro ⟨hp, rfl⟩; exact ⟨p, hp, rfl, rfl⟩
 
+/-! ## any batching, any merge tree, any assignment of the rows (SC07c)
+
+The state is never truncated while accumulating: `[:k]` is applied by `result()` to the table of the
+**exact global counts**.  So an n-gram that is rare in every early batch and frequent overall (a "late
+bloomer") is ranked by its total count, however large the accumulated vocabulary has become (there is no
+`10 * k` — or any other — bound on the stored candidates; `Witness/C07Text.lean` shows what such a bound
+would do). -/
+
+/-- `TopKWordNGrams` after **any** batching: accumulators fed batch by batch (`leaf`), merged along any binary
+tree (`merge` / `merge_states`), the rows `d` dealt to them in any order — the result is the top `k` of the
+specified table over all of `d`. -/
+theorem C07_text_topk_exact_any_batching (cfg : NGramCfg) (t : DTree) (d : List Str) (h : t.rows.Perm d) :
+    (Metric.ngrams cfg).result (t.eval (.ngrams cfg))
+      = MlModel.Spec.Text.topKWordNGrams cfg.k cfg.n cfg.firstOnly cfg.countDup d := by
+  obtain ⟨hw, ho⟩ := t.eval_spec (.ngrams cfg)
+  rw [(Metric.ngrams cfg).result_congr hw (wf_batch _ d) (ho.trans (batch_perm _ h))]
+  exact C07_text_ngrams cfg d
+
+/-- … spelled out per row: every reported n-gram carries exactly `(its count over ALL texts) / (number of ALL
+texts)` — no count gathered in an earlier batch is ever lost -/
+theorem C07_text_topk_rows_exact_any_batching (cfg : NGramCfg) (t : DTree) (d : List Str) (h : t.rows.Perm d)
+    (g : Str) (q : Rat) (hm : (g, q) ∈ (Metric.ngrams cfg).result (t.eval (.ngrams cfg))) :
+    0 < MlModel.Spec.Text.ngramCount cfg.n cfg.firstOnly cfg.countDup g d ∧
+      q = MlModel.Spec.Text.freqOf (MlModel.Spec.Text.ngramCount cfg.n cfg.firstOnly cfg.countDup g d) d.length := by
+  rw [C07_text_topk_exact_any_batching cfg t d h] at hm
+  exact (C07_text_spec_table_mem cfg.n cfg.firstOnly cfg.countDup d g q).mp (List.mem_of_mem_take hm)
+
+/-- … and the selection is the right one: an n-gram of the data that is **not** reported never beats a reported
+one (strictly smaller frequency over all texts, or equal frequency and alphabetically later) -/
+theorem C07_text_topk_optimal_any_batching (cfg : NGramCfg) (t : DTree) (d : List Str) (h : t.rows.Perm d)
+    (g g' : Str) (q : Rat) (hm : (g, q) ∈ (Metric.ngrams cfg).result (t.eval (.ngrams cfg)))
+    (hpos : 0 < MlModel.Spec.Text.ngramCount cfg.n cfg.firstOnly cfg.countDup g' d)
+    (hout : ∀ q', (g', q') ∉ (Metric.ngrams cfg).result (t.eval (.ngrams cfg))) :
+    let q' := MlModel.Spec.Text.freqOf (MlModel.Spec.Text.ngramCount cfg.n cfg.firstOnly cfg.countDup g' d) d.length
+    q' < q ∨ (q = q' ∧ MlModel.Spec.Text.alphaLe g g' = true) := by
+  intro q'
+  rw [C07_text_topk_exact_any_batching cfg t d h] at hm hout
+  unfold MlModel.Spec.Text.topKWordNGrams at hm hout
+  have hin : (g', q') ∈ MlModel.Spec.Text.ngramTable cfg.n cfg.firstOnly cfg.countDup d :=
+    (C07_text_spec_table_mem _ _ _ d g' q').mpr ⟨hpos, rfl⟩
+  have hdrop : (g', q') ∈ (MlModel.Spec.Text.ngramTable cfg.n cfg.firstOnly cfg.countDup d).drop cfg.k := by
+    rw [← List.take_append_drop cfg.k (MlModel.Spec.Text.ngramTable cfg.n cfg.firstOnly cfg.countDup d)] at hin
+    rcases List.mem_append.mp hin with h1 | h2
+    · exact absurd h1 (hout q')
+    · exact h2
+  have hs := (C07_text_spec_table_sorted cfg.n cfg.firstOnly cfg.countDup d).1
+  rw [← List.take_append_drop cfg.k (MlModel.Spec.Text.ngramTable cfg.n cfg.firstOnly cfg.countDup d)] at hs
+  exact (List.pairwise_append.mp hs).2.2 _ hm _ hdrop
+
+/-- test (kernel): a three-leaf tree with the rows in another order -/
+example : (DTree.node (.leaf [[['a']], []]) (.node (.leaf []) (.leaf [[['b'], ['a']]]))).rows.Perm
+    [['a'], ['a'], ['b']] := by decide
+
 /-! Tests (evaluated by the kernel): the specification on the docstring-sized example
 `["a b a b", "A b!"]`, bigrams: `"a b"` starts at 3 positions, `"b a"` at 1. -/
 example : MlModel.Spec.Text.ngramCount 2 false true ['a', ' ', 'b']
